@@ -409,7 +409,7 @@ def wellBuilt (σ : Store) : Core → Bool
   | .leaf _ _ _ _ => true
   | .nop => true
   | .tee cs => wellBuiltAll σ cs
-  | .incr c en => validLevels.all (fun l => !(en.on σ l) || enabled σ c l) && wellBuilt σ c
+  | .incr c en => incrValid σ c en && wellBuilt σ c
   | .hooked c _ => wellBuilt σ c
   | .sampler c _ _ => wellBuilt σ c
   | .lazy _ c _ => wellBuilt σ c
@@ -442,7 +442,7 @@ theorem enabled_delivers (σ : Store) (sn : Snap) (l : Level) (hl : l ∈ validL
       simp only [wellBuilt] at hw; simp only [noDrop] at hn; simp only [enabled] at he
       simp only [check]; exact enabledAny_delivers σ sn l hl cs pend hw hn he
   | .incr c en, pend, hw, hn, he => by
-      simp only [wellBuilt, Bool.and_eq_true, List.all_eq_true] at hw
+      simp only [wellBuilt, incrValid, Bool.and_eq_true, List.all_eq_true] at hw
       simp only [noDrop] at hn; simp only [enabled] at he
       have hc : enabled σ c l = true := by
         have := hw.1 l hl; simpa [he] using this
@@ -491,7 +491,7 @@ theorem log_eq_checked (σ : Store) (μ : Val) (lg : Logger) (l : Level) (fs : L
   · simp [Logger.log, Logger.check, hg]
   · by_cases h0 : check σ (checkEv σ μ l lg.core w).snap l lg.core [] [] = [] ∧ lg.terminal l = none
     · simp only [Logger.log, Logger.check, Logger.checked, hg, h0, and_self, if_true, Bool.false_eq_true, if_false]
-      simp [CE.write, W.emit]
+      simp [CE.write, W.emit, termEvs]
     · simp only [Logger.log, Logger.check, Logger.checked, hg, h0, Bool.false_eq_true, if_false]
 
 /-! ### front-end guards (facts decided on the generated table) -/
@@ -509,8 +509,8 @@ def FrontEnd.exact (fe : FrontEnd) : Bool :=
 def FrontEnd.sound (fe : FrontEnd) : Bool :=
   fe.lts.all fun lt => [true, false].all fun en => !(lt || en) || (fe.guards.all (Guard.pass lt en) == !(lt && !en))
 
-theorem FrontEnd.lt_mem (fe : FrontEnd) (l : Level) (ha : fe.admits l = true) : decide (l < dpanicL) ∈ fe.lts := by
-  unfold FrontEnd.admits at ha
+theorem FrontEnd.lt_mem (fe : FrontEnd) (l : Level) (ha : fe.takes l = true) : decide (l < dpanicL) ∈ fe.lts := by
+  unfold FrontEnd.takes at ha
   unfold FrontEnd.lts
   cases hlv : fe.level with
   | none => cases decide (l < dpanicL) <;> simp
@@ -519,14 +519,14 @@ theorem FrontEnd.lt_mem (fe : FrontEnd) (l : Level) (ha : fe.admits l = true) : 
     have hk : k = l := by simpa using ha
     subst hk; simp
 
-theorem guards_of_exact (fe : FrontEnd) (hx : fe.exact = true) (l : Level) (ha : fe.admits l = true) (en : Bool) :
+theorem guards_of_exact (fe : FrontEnd) (hx : fe.exact = true) (l : Level) (ha : fe.takes l = true) (en : Bool) :
     fe.guards.all (Guard.pass (decide (l < dpanicL)) en) = !(decide (l < dpanicL) && !en) := by
   unfold FrontEnd.exact at hx
   have h1 := List.all_eq_true.mp hx _ (fe.lt_mem l ha)
   have h2 := List.all_eq_true.mp h1 en (by cases en <;> simp)
   simpa using h2
 
-theorem guards_of_sound (fe : FrontEnd) (hx : fe.sound = true) (l : Level) (ha : fe.admits l = true) (en : Bool)
+theorem guards_of_sound (fe : FrontEnd) (hx : fe.sound = true) (l : Level) (ha : fe.takes l = true) (en : Bool)
     (h : l < dpanicL ∨ en = true) :
     fe.guards.all (Guard.pass (decide (l < dpanicL)) en) = !(decide (l < dpanicL) && !en) := by
   unfold FrontEnd.sound at hx
